@@ -34,7 +34,7 @@ _spec = importlib.util.spec_from_file_location("prop_c06_shared", os.path.join(o
 c06 = importlib.util.module_from_spec(_spec)
 _spec.loader.exec_module(c06)
 
-RULE = ("requests: real-rooted polynomials with separated roots (degree 1..6, a root at 0, the real line scaled by 2^-20..2^20) "
+RULE = ("(hardening: every returned value is re-derived in the harness through the public API [finite; one more Newton step from it obeys the second-order bound]; the real line rescaled to every decade 1e-20..1e20 and binade 2^-70..2^60, ill-scaled polynomials with every root at its own scale, degrees 8..24, signed-zero / subnormal / 1e300 starting points, caps next to the integer limits, other variable names) requests: real-rooted polynomials with separated roots (degree 1..6, a root at 0, the real line scaled by 2^-20..2^20) "
         "started outside the root interval with ample budget; polynomials from arbitrary roots (degree 0..7, double roots, complex "
         "pairs) from any start with tolerances 1e-12..1e3 and <= 0, caps 0..5000; iterates that land exactly on 0, zero derivatives, "
         "cycles, constants; arbitrary polynomials of both kinds; both modes; non-trivial = the model returns a value (`ok`); "
@@ -293,8 +293,8 @@ def oracle(req, impl):
             slack += Fr(1, 2 ** 1070) * (1 + sum(r.gabs.values(), Fr(0)) + c06.dbound(r.gabs, X))
             res = abs(c06.ev(r.g, xq))
             if res > bound + slack:
-                return (f"returned x = {x!r} has |g(x)| = {float(res):.6g} > (M/2)(tol/100*|x|)^2 = {float(bound):.6g} "
-                        f"(+ slack {float(slack):.3g})")
+                return (f"returned x = {x!r} has |g(x)| = {c06.fl(res):.6g} > (M/2)(tol/100*|x|)^2 = {c06.fl(bound):.6g} "
+                        f"(+ slack {c06.fl(slack):.3g})")
     if it[0] != "ok" and not (r.itermax >= 2000 and math.isfinite(tol) and 1e-9 <= tol < 100):
         return None
     ms = monotone_setting(r)
@@ -311,7 +311,14 @@ def oracle(req, impl):
         allowed = n * Fr(tol) / 100 * abs(xq) + Fr(1, 10 ** 12) * kabs + Fr(1, 10 ** 13) * abs(xq) + (ext[1] - ext[0])
         if dist > allowed:
             return (f"monotone case (all {n} roots real and separated, start outside): returned x = {x!r} is "
-                    f"{float(dist):.6g} away from the extreme root {float(ext[0])!r}, allowed {float(allowed):.6g}")
+                    f"{c06.fl(dist):.6g} away from the extreme root {c06.fl(ext[0])!r}, allowed {c06.fl(allowed):.6g}")
+        return None
+    # binary64 overflow at the start (x0 = -1e300 for x^2 - 4): g(x0) is not a number the code can hold, the iteration
+    # degenerates to NaN by IEEE rules and the error value is the documented outcome; the statement's "wherever the
+    # root lies" is about the position of the root, not about starting points beyond the range of the arithmetic.
+    # From a representable start the iterates move monotonically towards the root, so no later overflow is possible.
+    x0q = Fr(r.x0)
+    if c06.absum(r.gabs, x0q) > 10 ** 300 or c06.dbound(r.gabs, abs(x0q)) > 10 ** 300:
         return None
     return (f"monotone case (all {n} roots real and separated, start outside, budget >= 2000, 1e-9 <= tol < 100): "
             f"no value was returned: " + impl[:60])
